@@ -44,6 +44,21 @@ def generate(rng, tier, idx):
         return {"machine": "M-IM", "cfg": {"simset": pick(rng, ["insertion", "shuffle", "reverse"])}, "ops": ops}
     ops = gen_mf.rpms_canonical_history(rng)
     arches = sorted(set(o["arch"] for o in ops if o["op"] == "add"))
+    if rng.random() < 0.35:
+        # the old document is synthesised by the harness from the reference model (independent of Rpms.add)
+        for o in ops:
+            if o["op"] == "add":
+                o["op"] = "model_add"
+        path = "/sim/d/rpms.json"
+        ops.append({"op": "model_dump", "path": path})
+        ops.append({"op": "rp_downgrade", "path": path, "version": pick(rng, ["0.3", "0.3", "1.0", "1.1"]), "tag": "C10",
+                    "decorate": pick(rng, [None, None, "rpm", "dir"])})
+        ops.append({"op": "restart", "path": path, "via": pick(rng, ["path", "handle", "loads"]), "offset": rng.randint(0, 500)})
+        for _ in range(rng.randint(0, 3)):
+            ops.append(gen_mf.rpm_add(rng, arches=arches + ["src"], invalid=0.2))
+        ops.append({"op": "dump", "path": path})
+        ops.append({"op": "restart", "path": path, "via": "path"})
+        return {"machine": "M-RP", "cfg": {}, "ops": ops}
     for _ in range(rng.randint(1, 4)):
         bad = gen_mf.rpm_add(rng, arches=arches, invalid=0)
         bad["arch"] = pick(rng, pools.ARCHES_BAD)
